@@ -191,12 +191,22 @@ def same(a, b):
 
 # ------------------------------------------------------------------ oracle: the documented definition
 def reference(ts, nodes_time, sel, min_time):
+    """max over the site's mutations of the documented node-age summary, raised to min_time;
+    NaN without mutations.  Parents are read from the edge table, not from tskit trees."""
     out = np.full(ts.num_sites, np.nan)
+    left, right, par, chi = ts.edges_left, ts.edges_right, ts.edges_parent, ts.edges_child
+    by_child = {}
+    for e in range(ts.num_edges):
+        by_child.setdefault(int(chi[e]), []).append(e)
     for site in ts.sites():
-        tree = ts.at(site.position)
+        x = site.position
         ages = []
         for m in site.mutations:
-            p = tree.parent(m.node)
+            p = -1
+            for e in by_child.get(int(m.node), ()):
+                if left[e] <= x < right[e]:
+                    p = int(par[e])
+                    break
             c = nodes_time[m.node]
             if sel == "child" or p == -1:
                 ages.append(c)
@@ -442,7 +452,7 @@ def argument_checks(ctx):
 
 def run(ctx, model_ok=True):
     argument_checks(ctx)
-    run_sites_time(ctx, ctx.n(240, 3000), model_ok)
+    run_sites_time(ctx, ctx.n(200, 3000), model_ok)
     run_unconstrained(ctx, ctx.n(40, 400), model_ok)
     run_sampledata(ctx, ctx.n(15, 200), model_ok)
 
